@@ -99,9 +99,11 @@ impl Selector {
         } else {
             let mut n = epoll.wait(events, EpollTimeout::ZERO)?;
             if n == 0 {
+                crate::verif::event("ep.wait", id as u64, _timeout.unwrap_or(u64::MAX));
                 crate::verif::idle_wait(id, _timeout);
                 n = epoll.wait(events, EpollTimeout::ZERO)?;
             }
+            crate::verif::event("ep.ret", id as u64, n as u64);
             n
         };
         // println!("epoll_wait = {}", n);
@@ -113,6 +115,8 @@ impl Selector {
                 let mut buf = [0u8; 8];
                 // clear the eventfd, ignore the result
                 read(single_selector.evfd.as_fd(), &mut buf).ok();
+                #[cfg(may_verif)]
+                crate::verif::event("ep.evread", id as u64, 0);
                 // info!("got wakeup event in select, id={}", id);
                 scheduler.collect_global(id);
                 continue;
@@ -145,6 +149,8 @@ impl Selector {
             crate::coroutine_impl::run_coroutine(co);
         }
 
+        #[cfg(may_verif)]
+        crate::verif::event("ep.run", id as u64, 0);
         // run all the local tasks
         scheduler.run_queued_tasks(id);
 
@@ -161,8 +167,12 @@ impl Selector {
         // coroutines that are still queued (the budget of run_queued_tasks ran out, or a
         // timer handler just made one runnable) must not wait for the next io event
         if scheduler.has_local_tasks(id) {
+            #[cfg(may_verif)]
+            crate::verif::event("ep.done", id as u64, 0);
             return Ok(Some(0));
         }
+        #[cfg(may_verif)]
+        crate::verif::event("ep.done", id as u64, next_expire.unwrap_or(u64::MAX));
         Ok(next_expire)
     }
 
@@ -172,6 +182,8 @@ impl Selector {
         let buf = 1u64.to_le_bytes();
         let ret = write(&self.vec[id].evfd, &buf);
         trace!("wakeup id={id:?}, ret={ret:?}");
+        #[cfg(may_verif)]
+        crate::verif::event("ep.wakeup", id as u64, 0);
         #[cfg(may_verif)]
         crate::verif::wake_worker(id);
     }
